@@ -314,8 +314,10 @@ func (tp *TableParser) parseCellParagraph(p paragraphXML) parsedParagraph {
 	// Extract text from runs
 	var textParts []string
 	for _, run := range p.Runs {
-		for _, t := range run.Text {
-			textParts = append(textParts, t.Value)
+		for _, c := range run.Content {
+			if c.XMLName.Local == "t" {
+				textParts = append(textParts, c.Value)
+			}
 		}
 	}
 	parsed.Text = strings.Join(textParts, "")
